@@ -735,6 +735,8 @@ func runC02(r *Run) {
 	r.Import("R6/C05.", []string{"R2"}, runC05)
 	// a balance change that a revert does not undo is minted or burned by the final Commit: the journal discipline
 	// of x/evm/statedb is part of this property too — the same rule code as C05 R4
+	r.Rule("R13", "see C05 R10 (imported): what a mid-transaction StateDB.Commit (the flush every precompile starts with) wrote is rewritten by the next Commit even when a reverted frame removed the address from the journal's dirty set — otherwise a payment made in a frame that calls a precompile and reverts stays with the payee while the payer's balance is restored by minting")
+	r.Import("R13/C05.", []string{"R10"}, runC05)
 	r.Rule("R8", "see C05 R4 (imported): every write to revertible StateDB state is journalled, every entry's Revert restores what was written after it was appended, from recorded values")
 	r.Import("R8/C05.", []string{"R4"}, runC05)
 
